@@ -10,6 +10,24 @@ CLAIMED = {
             "Sampling, not enumeration. Trusted: SDK bank events as the record of movements (cross-checked against bank state every block); the model's fee tracks accepted authority updates and is compared with the stored params after every block."),
     "C02": ("5/C02", "Same simulation; the whole-chain balance sheet of every accepted coinswap transaction (all accounts, all denoms, all supplies) must equal exactly the traded coins between sender, recipient and the pools involved; bounds, deadlines (with deadlines expiring in flight), liquidity-token mint/burn, response amounts and the creation-fee split are judged per transaction; recipients equal to and different from the sender, fresh and blocked addresses.",
             "Sampling, not enumeration. Trusted: SDK bank events (cross-checked against bank state every block)."),
+    "C03": ("5/C03", "Simulated histories of create / claim (right, wrong, replayed and eavesdropped secrets, by any account) / expiry for plain, incoming and outgoing hash-time-locked contracts, multi-coin amounts, time locks biased to the minimum, several contracts per expiry height, claims retimed onto expiry-1 / expiry / expiry+1, duplicate creations in every state, parameter updates, delays, retries, out-of-gas, failing tail messages, restarts and crashes. A per-contract lifecycle model decides the verdict of every claim and creation; accepted transactions and every begin-block are judged by exact whole-chain balance sheets; contract state is compared with the HTLC query after every block; at the end every contract has at most/exactly one exit and exits equal entries.",
+            "Sampling. Trusted: SDK bank events (cross-checked against bank state every block). Known finding: right-secret claims of incoming transfers refused after a parameter update."),
+    "C04": ("5/C04", "Same simulation with a governor changing asset parameters and block-time distributions that cross the time-limit period (a single step larger than the period, steps summing exactly to it, nanosecond periods). After every block: escrow = sum of open plain + outgoing contracts (harness donations subtracted), per-asset incoming/outgoing/current counters = sums over the model's contracts, current = bank supply for HTLT-only denoms, limits within stretches of unchanged parameters with tumbling windows recomputed from block times alone.",
+            "Sampling. 'One limit period' is read as the module's documented tumbling window."),
+    "C05": ("5/C05", "Simulated farm histories (stake / unstake / harvest / adjust / destroy by several farmers and creators over real coinswap liquidity tokens, 1..max reward denoms, coprime small and huge magnitudes, future starts, natural expiry, operations retimed onto start, end and destroy blocks) with faults. After every block: sum of farmer stakes = pool total, farm escrow = staked + remaining rewards, stake/unstake move exactly the stated amount; any unstake of at most the model stake must succeed at any height; an epilogue makes every farmer withdraw everything.",
+            "Sampling. The community-pool creation path (needs a passed gov proposal) is not exercised."),
+    "C06": ("5/C06", "Same simulation judged against an exact rational (big.Rat) stake-time reference: funded = remaining + released after every block, released only while someone is staked, refund to the creator exactly once (end block or destroy), end height = start + min floor(budget/rate), after an adjust the budget lasts to the new end, per-farmer cumulative payout within the property's stated rounding of the exact share, sum paid <= released.",
+            "Sampling. Tolerance taken from the property's wording (one unit per interaction plus 18-decimal accumulator truncation)."),
+    "C09": ("5/C09", "Simulated token histories (issue / edit / mint / burn / transfer-owner by owners, previous owners and strangers; scales 0..18; supplies at their limits; fractional burns; max-supply edits at the circulating amount; fee and tax parameters sampled and updated by the governor) with faults. Model decides authority verdicts; symbol and min-unit stay injective; supply <= queried cap after every transaction; burn tally exact; issue/mint fee balance sheet (owner pays, tax share to fee collector, rest burned, module account untouched).",
+            "Sampling. Conversions (C10 operations) are outside C09's quantifier: the cap clause is not judged for a token once a conversion moved its native supply."),
+    "C10": ("5/C10", "Same simulation with a fault-injectable ERC20 ledger behind the module's EVMKeeper interface whose state lives in the transaction's own cache-wrapped store (rolls back with the transaction): errors, reverts, wrong balance deltas, misdirected mints, gas-estimate failures. Accepted conversions move exactly the amount between native and ERC20 supply; any rejected conversion leaves bank and ERC20 ledgers untouched; fee-token swaps (registry filled through the verif-tagged accessor; ratios and scales swarm-sampled) never burn more than offered nor mint more than the burned amount is worth, exact at ratio 1.",
+            "Sampling. The EVM is a stub (interface seam); the module's ordering and re-checks are what is tested."),
+    "C14": ("5/C14", "Simulated NFT histories over classes with all four restriction-flag combinations: mint / edit / transfer (to self, with and without metadata change, do-not-modify sentinel) / burn and re-mint of the same id / class handover, by owners, creators, previous owners and strangers, with faults. An ownership model decides must-accept / must-reject for the clauses the property states; class, collection, token, supply, balance and owner queries equal the model after every block.",
+            "Sampling."),
+    "C15": ("5/C15", "Simulated MT histories with amounts over the whole uint64 range (0, 1, 2^63, 2^64-1, balance +-1, room below the limit +-1): issue / mint / edit / transfer (incl. to self) / burn / class handover by owners and strangers, with faults. Big-integer ledger: sum of balances = supply per token, exact movement, accepted iff the holder has the amount, any stored value differing from the model (wrap-around) is a violation, authority verdicts, generated ids never repeat.",
+            "Sampling."),
+    "C19": ("5/C19", "Simulated record histories: byte-identical records from one creator in one transaction (multi-message), one block and across blocks, failing tail messages after a create (whole-tx rollback including the id counter), out-of-gas, restarts, crashes. Every returned id is new in the run; every id is read back (contents, creator, sha256 of the creating tx) after every block until the end.",
+            "Sampling."),
     "C11": ("5/C11", "Every simulated history (all workload modules on one chain) is recorded as a block stream and executed again on fresh nodes inside the same simulation: a twin, a late joiner whose host clock the simulator moved forward by a log-uniform skew (1 ms .. 10 years; chain time placed on both sides of the host clock at every scale), a node restarted at block boundaries (down to every block), and a node that crashes after FinalizeBlock and before Commit and re-executes the block. App hash and every transaction result must agree block by block; exported genesis must agree between nodes and between two exports of one node; on divergence the stores are diffed to name module and key.",
             "Sampling. The host clock is the testing/synctest fake clock (real time never read). Another CPU architecture or toolchain is not explored (amd64, go1.26.8 only)."),
     "C12": ("5/C12", "At seeded block boundaries (and at the end of every history) the primary node's disk is cloned, the clone exported (as is, or after the modules' own PrepForZeroHeightGenesis), the genesis imported into a fresh application through InitChain (must be accepted) and, directly through the module manager, into a second one whose state is exported again (byte-equal module sections = fixpoint) and queried (workload modules render the queries about the durable objects they know; answers must be equal on source and target).",
